@@ -3,6 +3,8 @@ pub mod c03;
 pub mod c04;
 pub mod c05;
 pub mod c06;
+pub mod c07;
+pub mod c07b;
 pub mod c11;
 pub mod c11b;
 pub mod c12;
@@ -29,6 +31,7 @@ pub fn dispatch(ctx: &Ctx, replay: Option<&str>) -> i32 {
         "C04" => c04,
         "C05" => c05,
         "C06" => c06,
+        "C07" => c07,
         "C11" => c11,
         "C12" => c12,
         "C13" => c13,
